@@ -397,6 +397,52 @@ func (c *Ctx) sessionEffects(fn *ssa.Function) (effects []ssa.Instruction, desc 
 			desc = append(desc, "store MTProto.encrypted = "+st.Val.String())
 		}
 	}
+	// leaving service mode hands every later server message to processResponse, whose new_session_created /
+	// bad_server_salt arms save the session: the reset belongs to the success path only.  A deferred closure
+	// that resets the flag (or saves) runs on every exit after the defer statement.
+	leavesServiceMode := func(f *ssa.Function) bool {
+		for _, b := range f.Blocks {
+			for _, in := range b.Instrs {
+				switch x := in.(type) {
+				case *ssa.Store:
+					if fa, ok := x.Addr.(*ssa.FieldAddr); ok && an.FieldName(fa.X.Type(), fa.Field) == "mtproto.MTProto.serviceModeActivated" {
+						if k, ok := x.Val.(*ssa.Const); !ok || k.Value == nil || k.Value.String() != "true" {
+							return true
+						}
+					}
+				case ssa.CallInstruction:
+					if strings.HasSuffix(an.CalleeName(x.Common()), "MTProto).SaveSession") {
+						return true
+					}
+				}
+			}
+		}
+		return false
+	}
+	for _, b := range fn.Blocks {
+		for _, in := range b.Instrs {
+			switch x := in.(type) {
+			case *ssa.Store:
+				if fa, ok := x.Addr.(*ssa.FieldAddr); ok && an.FieldName(fa.X.Type(), fa.Field) == "mtproto.MTProto.serviceModeActivated" {
+					if k, ok := x.Val.(*ssa.Const); !ok || k.Value == nil || k.Value.String() != "true" {
+						effects = append(effects, x)
+						desc = append(desc, "store MTProto.serviceModeActivated = "+x.Val.String())
+					}
+				}
+			case *ssa.Defer:
+				var callee *ssa.Function
+				if mc, ok := x.Call.Value.(*ssa.MakeClosure); ok {
+					callee, _ = mc.Fn.(*ssa.Function)
+				} else {
+					callee = an.StaticCallee(&x.Call)
+				}
+				if callee != nil && c.P.InRepo(callee) && leavesServiceMode(callee) {
+					effects = append(effects, x)
+					desc = append(desc, "defer of "+an.ShortName(callee)+" (leaves service mode / saves on every exit)")
+				}
+			}
+		}
+	}
 	return
 }
 
